@@ -5,7 +5,8 @@ from irdb import broken, reg_var_names
 from prov import Prov, strip_casts, strip_ext, addr_key, path_key, render
 
 CODEC_UNITS = ('encode', 'divbwt', 'decode', 'parse', 'crctab')
-ALLOWED_EXTERNAL = {'abort', 'free', 'xmalloc', 'ntohl', 'htonl', 'memcpy', 'memset', 'memmove', 'memcmp'}
+ALLOWED_EXTERNAL = {'abort', 'free', 'xmalloc', 'ntohl', 'htonl', 'memcpy', 'memset', 'memmove', 'memcmp',
+                    '__assert_fail'}     # (assert-enabled configuration: a failed assertion aborts)
 # globals whose value depends on the schedule, the worker count, thread identity or time
 SCHEDULE_DEPENDENT = {'num_worker', 'work_units', 'in_slots', 'out_slots', 'total_in_slots', 'total_out_slots',
                       'total_work_units', 'thread_id', 'next_task', 'eof', 'max_mem'}
@@ -63,7 +64,7 @@ def purity(ctx, prog, pfx, units=CODEC_UNITS):
                         if owner is None or not (owner.const or owner.name == 'crc_table'):
                             gloads.append('%s reads %s at %s' % (f.name, addr_key(a), f.loc(i)))
         ctx.ob(pfx + '.purity', '%s.c calls nothing outside the codec except %s' % (unit, '/'.join(sorted(
-            ALLOWED_EXTERNAL))), 'src/%s.c' % unit, not bad_calls, '; '.join(bad_calls[:4]) or '%d functions' % nf, evals=nf)
+            ALLOWED_EXTERNAL - {'__assert_fail'}))), 'src/%s.c' % unit, not bad_calls, '; '.join(bad_calls[:4]) or '%d functions' % nf, evals=nf)
         ctx.ob(pfx + '.purity', '%s.c stores to no global and reads only constant tables' % unit, 'src/%s.c' % unit,
                not gstores and not gloads, '; '.join((gstores + gloads)[:4]), evals=nf)
 
@@ -305,6 +306,10 @@ def schedule_values_confined(ctx, prog, pfx, units, skip_prefixes=('can_',), ski
                         continue
                     seen.add(r)
                     for u in users.get(r, []):
+                        if u.op == 'br' or (u.op in ('icmp', 'trunc', 'zext') and all(
+                                x.op == 'br' and _assert_branch(f, x) for x in users.get(u.res, []))):
+                            if u.op != 'br' or _assert_branch(f, u):
+                                continue        # assert(...) in the assert-enabled configuration
                         if u.op == 'store':
                             if u.ops[0] == ('reg', r) and is_sched(P.addr(u.ops[1])):
                                 continue
@@ -325,3 +330,94 @@ def schedule_values_confined(ctx, prog, pfx, units, skip_prefixes=('can_',), ski
            'only update counters (x++/x--); task bodies neither branch on them nor let them flow into block data or codec '
            'arguments (scheduling decisions live in the can_*() predicates)' %
            '/'.join(units), 'src/', not bad, '; '.join(sorted(set(bad))[:4]) or '%d loads' % n, evals=n)
+
+
+def emit_symbol_law(ctx, prog, pfx):
+    """emit(): conservation of decoded symbols.  `a` counts the symbols still to be fetched from the inverse-BWT list;
+    every `if (!a--) break;` that falls through has consumed one, and must be followed by exactly one fetch
+    `t[p >> 8]` before the function suspends or returns.  The law #consumed - #fetched == 0 is decided on every path
+    from the state dispatch to the exit (a suspension that lands between the two loses or duplicates a symbol)."""
+    import cfg as _cfg
+    from prov import peel_cond, cmp_norm
+    f = prog.func('decode', 'emit')
+    P = Prov(prog, f)
+    names = reg_var_names(f)
+
+    def is_a(v):
+        return v[0] == 'reg' and names.get(v[1]) == 'a'
+    consume_edges = {}      # block -> successor that means "a was non-zero, one symbol consumed"
+    for b in f.blocks.values():
+        t = b.term
+        if t.op != 'br' or len(t.extra['targets']) != 2:
+            continue
+        c, pol = peel_cond(P.expr(t.ops[0]))
+        c = strip_casts(c)
+        # `!a--`  ==  (a_old == 0): after peeling, the core is a_old itself with inverted polarity, or icmp eq a,0
+        core = c
+        zero_on_true = None
+        cn = cmp_norm(c)
+        if cn is not None and cn[2] == ('const', 0) and cn[0] in ('eq', 'ne'):
+            core = strip_casts(cn[1])
+            zero_on_true = (cn[0] == 'eq') == pol
+        else:
+            zero_on_true = not pol
+        # the decrement of `a` in this block whose old value is the one tested
+        dec = [i for i in b.insns if i.op == 'add' and i.ops[1] == ('int', -1) and names.get(i.res) == 'a' and
+               strip_casts(P.expr(i.ops[0])) == core]
+        if dec:
+            consume_edges[b.name] = t.extra['targets'][1] if zero_on_true else t.extra['targets'][0]
+    fetches = {}
+    for b in f.blocks.values():
+        n = 0
+        for i in b.insns:
+            if i.op == 'load' and i.ty == ('int', 32):
+                a = P.addr(i.ops[0])
+                if a[1][0] == 'V' and a[2] and a[2][-1][0] == 'i' and isinstance(a[2][-1][1], tuple):
+                    ix = strip_casts(a[2][-1][1])
+                    base = strip_casts(a[1][1])
+                    if ix[0] == 'bin' and ix[1] == 'lshr' and strip_casts(ix[3]) == ('const', 8) and \
+                            base[0] == 'load' and path_key(base[1][2]) == '.tt':
+                        n += 1
+        if n:
+            fetches[b.name] = n
+    ctx.floor(pfx + ' emit(): symbol-consuming tests (!a--)', len(consume_edges), 10)
+    ctx.floor(pfx + ' emit(): fetches t[p >> 8]', sum(fetches.values()), 10)
+    exits = [b.name for b in f.blocks.values() if b.term.op == 'ret']
+    seen = set()
+    work = [(f.entry.name, 0, (f.entry.name,))]
+    bad = []
+    npaths = 0
+    while work:
+        bn, diff, trail = work.pop()
+        if (bn, diff) in seen:
+            continue
+        seen.add((bn, diff))
+        b = f.blocks[bn]
+        diff -= fetches.get(bn, 0)
+        if abs(diff) > 2:
+            bad.append('imbalance grows without bound around %s' % f.loc(b.insns[0]))
+            continue
+        if b.term.op == 'ret':
+            npaths += 1
+            if diff != 0:
+                bad.append('a path reaches the return at %s with %+d symbol(s) consumed but not fetched (via %s)' % (
+                    f.loc(b.term), diff, ' -> '.join(trail[-6:])))
+            continue
+        for s in b.succs:
+            d2 = diff + (1 if consume_edges.get(bn) == s else 0)
+            work.append((s, d2, trail + (s,)))
+    ctx.ob(pfx + '.emit.symbol_law', 'emit(): on every path, each symbol taken from the block (`!a--` falling through) is '
+           'fetched exactly once before the function suspends or returns', f.loc(), not bad,
+           '; '.join(sorted(set(bad))[:3]) or '%d (block, balance) states, %d consuming tests, %d fetches' % (
+               len(seen), len(consume_edges), sum(fetches.values())), evals=len(seen))
+
+
+def _assert_branch(f, br):
+    """a conditional branch one of whose targets does nothing but report a failed assertion"""
+    if br.op != 'br' or len(br.extra.get('targets', [])) != 2:
+        return False
+    for t in br.extra['targets']:
+        b = f.blocks[t]
+        if any(i.op == 'call' and i.extra.get('callee') == '__assert_fail' for i in b.insns) and b.term.op == 'unreachable':
+            return True
+    return False
